@@ -325,6 +325,117 @@ def f2_terms(a) -> list[str]:
 
 
 # ------------------------------------------------------------------------------------------------
+# normal form of a REAL iteration graph (mirror of DesugarSemGraph.nf_g) and the K-C01-F2 pattern
+# ------------------------------------------------------------------------------------------------
+def _dim_idx(ordering, lidx):
+    return tuple(lidx[ordering.index(d)] for d in range(len(ordering)))
+
+
+def nf_iexpr(e, orderings):
+    k = e[0]
+    if k == "int":
+        return [(False, [("int", int(e[1]))], [])]
+    if k == "float":
+        return [(False, [("float", repr(float(e[1])))], [])]
+    if k == "t":
+        return [(False, [("t", e[2], _dim_idx(orderings[e[2]], e[3]))], [])]
+    a, b = nf_iexpr(e[1], orderings), nf_iexpr(e[2], orderings)
+    if k == "+":
+        return a + b
+    return [(sa != sb, fa + fb, ka + kb) for sa, fa, ka in a for sb, fb, kb in b]
+
+
+def nf_graph(g, orderings):
+    """[(negative, [leaf...], [summed index...])]: an IterationNode without output layer adds its index to
+    the summed list of every monomial below it."""
+    k = g[0]
+    if k == "T":
+        return nf_iexpr(g[1], orderings)
+    if k == "I":
+        below = nf_graph(g[3], orderings)
+        if g[2] is None:
+            return [(s, f, [g[1]] + ks) for s, f, ks in below]
+        return below
+    out = []
+    for t in g[1]:
+        out += nf_graph(t, orderings)
+    return out
+
+
+def _leaf_key(l):
+    if l[0] == "float":
+        return ("float", float(l[1]))
+    if l[0] == "int":
+        return ("int", int(l[1]))
+    return ("t", l[1], tuple(l[2]))
+
+
+def f2_graph_pattern(a, graph, orderings):
+    """The graph has exactly the monomials of the specification, each summed over its own contracted
+    indexes PLUS possibly indexes it does not carry (each such index multiplies the term by its size).
+    Returns the list of (negative, leaves, extra indexes) in the order of S.monomials, or None when the
+    graph does not have that shape.  All extras empty <=> the graph denotes the specification."""
+    tgt = a[1]
+
+    def canon(sign, fs):
+        """literal factors -1 moved into the sign (DesugarSemGraph.ncanon)"""
+        keys = [_leaf_key(f) for f in fs]
+        m1 = sum(1 for k in keys if k == ("int", -1))
+        return sign != (m1 % 2 == 1), sorted((k for k in keys if k != ("int", -1)), key=repr)
+
+    gm = [canon(s, f) + (ks,) for s, f, ks in nf_graph(graph, orderings)]
+    out = []
+    for neg, fs in monomials(a[2]):
+        cneg, key = canon(neg, fs)
+        own = []
+        for f in fs:
+            if f[0] == "t":
+                for i in f[2]:
+                    if i not in own:
+                        own.append(i)
+        contracted = [i for i in own if i not in tgt]
+        # prefer an exact match, then any match
+        cands = [j for j, (s, k, ks) in enumerate(gm) if s == cneg and k == key]
+        if not cands:
+            return None
+        cands.sort(key=lambda j: (sorted(gm[j][2]) != sorted(contracted), len(gm[j][2])))
+        j = cands[0]
+        ks = gm[j][2]
+        if len(set(ks)) != len(ks) or not set(contracted) <= set(ks):
+            return None
+        extra = [k for k in ks if k not in contracted]
+        if any(k in own for k in extra):
+            return None
+        out.append((neg, fs, extra))
+        gm.pop(j)
+    if gm:
+        return None
+    return out
+
+
+def f2_graph_table(a, pattern, env, sizes):
+    """the specification with every term multiplied by the sizes of the extra indexes it is summed over"""
+    name, tgt, rhs = a
+    table = {}
+    for c in all_coords(out_dims(a, sizes)):
+        total = Fraction(0)
+        for neg, fs, extra in pattern:
+            v = spec_value((name, tgt, _product(fs)), env, sizes, c)
+            for k in extra:
+                v *= sizes[k]
+            total += -v if neg else v
+        table[c] = total
+    return table
+
+
+def _product(fs):
+    e = fs[0]
+    for f in fs[1:]:
+        e = ("*", e, f)
+    return e
+
+
+# ------------------------------------------------------------------------------------------------
 # K-C01-F3: integer literals lowered to int32 arithmetic
 # ------------------------------------------------------------------------------------------------
 def _desub(e):
